@@ -51,6 +51,8 @@ def parseEv (j : Json) : R Ev := do
   match ← arr j with
   | [.str "post", r] => return .post (← parseReq r)
   | [.str "reqstart"] => return .reqStart
+  | [.str "reqstop"] => return .reqStop
+  | [.str "reqdone", b] => return .reqDone (← b.getBool?)
   | [.str "take"] => return .take
   | [.str "cb"] => return .cycleBegin
   | [.str "ce", a, p] => return .cycleEnd (← a.getBool?) (← p.getBool?)
@@ -82,6 +84,8 @@ def jkind : IKind → Json
 def jev : Ev → Json
   | .post r => jarr [Json.str "post", jreq r]
   | .reqStart => jarr [Json.str "reqstart"]
+  | .reqStop => jarr [Json.str "reqstop"]
+  | .reqDone b => jarr [Json.str "reqdone", Json.bool b]
   | .take => jarr [Json.str "take"]
   | .cycleBegin => jarr [Json.str "cb"]
   | .cycleEnd a p => jarr [Json.str "ce", Json.bool a, Json.bool p]
@@ -100,9 +104,19 @@ def parseOp (j : Json) : R Op := do
   | [.str "req", r] => return .req (← parseReq r)
   | _ => throw s!"bad op {j.compress}"
 
-/-- number of user function calls (state and cleanup functions) in a history -/
+/-- the cleanup id that stands for the mixin's default cleanup `HasStates.on_cleanup` (no `cleanup=` given to `start_machine`) -/
+def defaultClean : Cid := 2
+
+/-- number of scripted user function calls (state and cleanup functions) in a history -/
 def userCalls (tr : List Ev) : Nat :=
-  (tr.filter fun e => match e with | .call _ _ => true | .cleanup _ => true | _ => false).length
+  (tr.filter fun e => match e with | .call _ _ => true | .cleanup c => c != defaultClean | _ => false).length
+
+/-- `HasStates.on_cleanup` (states.py 152-186): dispatches on the class of `cleanup_reason` — an exception: `on_error`
+    calls `final_status(ERROR, repr(reason))` and returns `None`; `Start`: `on_restart`, `Stop`: `on_stop`, both return `None`.  The reason is that of the interruption that called the cleanup. -/
+def onCleanup (tr : List Ev) : Outcome :=
+  match tr.reverse.find? (fun e => match e with | .interrupt _ => true | _ => false) with
+  | some (.interrupt .error) => { posts := [], fin := some (Generated.C14.errorCode, "<reason>"), ret := .bad }
+  | _ => { posts := [], fin := none, ret := .bad }
 
 def lookupNat {α : Type} (tab : List (Nat × α)) (k : Nat) : Option α := (tab.find? (·.1 == k)).map (·.2)
 
@@ -130,7 +144,8 @@ def parseSetup (j : Json) : R Setup := do
     past the end of the script a state function returns `Retry` and a cleanup function `None` -/
 def scripted (script : Array Outcome) (env : List (Nat × List Req)) : Prog :=
   { state := fun tr _ => script.getD (userCalls tr - 1) { posts := [], fin := none, ret := .retry },
-    clean := fun tr _ => script.getD (userCalls tr - 1) { posts := [], fin := none, ret := .bad },
+    clean := fun tr c => if c = defaultClean then onCleanup tr
+                         else script.getD (userCalls tr - 1) { posts := [], fin := none, ret := .bad },
     env := fun n => (lookupNat env n).getD [] }
 
 def jviol (v : Nat × Clause) : Json := jarr [jnat v.1, Json.str v.2.name]
